@@ -91,6 +91,24 @@ def calc_value_path(facts):
             c.append(path)
     if len(c) == 1:
         return c[0]
+    if not c:
+        # turned into a free function of the crate: the only non-public `fn(&Adsr) -> f32` that `tick` calls
+        real = facts.real('adt', ADSR)
+        callees = set()
+        tick = facts.fns.get(ADSR + '::tick')
+        for b in (tick or {}).get('blocks', []):
+            t = b['term']
+            if t['k'] == 'call' and 'def' in t['callee']:
+                callees.add((t['callee'].get('resolved') or {}).get('path') or t['callee']['def'])
+        for path, f in facts.fns.items():
+            if f.get('crate') != 'synth_utils' or f.get('pub') or f.get('kind') not in ('fn', 'free_fn', 'assoc_fn') or f.get('arg_count') != 1 or path not in callees:
+                continue
+            loc = f.get('locals') or []
+            if len(loc) >= 2 and loc[0]['ty'].get('n') == 'f32' and loc[1]['ty'].get('k') == 'ref' and not loc[1]['ty'].get('mut') \
+                    and (loc[1]['ty'].get('ty') or {}).get('path') == real:
+                c.append(path)
+        if len(c) == 1:
+            return c[0]
     raise InterpError('Adsr::calc_value (private helper computing the output level) not found and not identifiable by signature: candidates %s' % c)
 
 
